@@ -20,7 +20,9 @@ def run(chk):
 
     chk.kernel("heavyhitters._add_ngram")
     _glue.glue_part(chk, ["HeavyHitters"], {"add", "getitem", "update", "add_ngram", "update_ngram"}, lambda: _oracle.hh_history(chk, 150))
-    from . import C13, C15
+    from . import C08, C13, C15
+
+    C08.merge_tree_part(chk, ("hh",))  # 'any merge tree' includes the tree the library builds
 
     C13.query_part(chk, chk.default_found)  # what query() returns is hh[key] of the stored identities, fresh
     C15.merge_glue(chk, ["HeavyHitters"])  # merge() reaches the merge kernel on every accepting path
